@@ -20,6 +20,8 @@ def main():
             continue
         meta = json.load(open(f"{d}/meta.json"))
         pid = name.split("-")[0]
+        if not (pid.startswith("C") and pid[1:].isdigit()):
+            pid = str(meta.get("property", "")).strip()[:3]
         checks = [pid] + [c for c in meta.get("checks", {}) if c != pid]
         rc, out = sh(f"git apply {d}/patch.diff", cwd="/repo")
         if rc != 0:
